@@ -400,6 +400,9 @@ func directory(w http.ResponseWriter, r *http.Request, t *tor.Torrent, pth path.
 }
 
 func pathUrl(p path.Path) string {
+	if len(p) == 0 {
+		return ""
+	}
 	var b []byte
 	for _, s := range p {
 		t := url.PathEscape(s)
@@ -960,7 +963,10 @@ func playlist(w http.ResponseWriter, r *http.Request, t *tor.Torrent, dir path.P
 
 	fmt.Fprintf(w, "#EXTM3U\n")
 	if t.Files == nil {
-		m3uentry(w, r.Host, t.Hash, path.Parse(t.Name))
+		p := path.Parse(t.Name)
+		if len(p) > 0 {
+			m3uentry(w, r.Host, t.Hash, p)
+		}
 	} else {
 		a := make([]int, len(t.Files))
 		for i := range a {
